@@ -1697,6 +1697,7 @@ class Transaction(object):
         """
 
         self.verified = False
+        verified = True
         for inp in self.inputs:
             try:
                 transaction_hash = self.signature_hash(inp.index_n, inp.hash_type, inp.witness_type)
@@ -1706,12 +1707,13 @@ class Transaction(object):
             if not transaction_hash:
                 _logger.info("Need at least 1 key to create segwit transaction signature")
                 return False
-            self.verified = inp.verify(transaction_hash)
-            if not self.verified:
-                return False
+            # Go on with the other inputs when one does not verify: verifying is what attributes each signature to its
+            # public key, and signing a partially signed multisig input relies on that to keep the signatures in key order
+            if not inp.verify(transaction_hash):
+                verified = False
 
-        self.verified = True
-        return True
+        self.verified = verified
+        return verified
 
     def sign(self, keys=None, index_n=None, multisig_key_n=None, hash_type=SIGHASH_ALL, fail_on_unknown_key=True,
              replace_signatures=False):
